@@ -38,4 +38,12 @@ def scaleRejected (cur : Option Int) (r : ScaleResult) (errReturned : Bool) : Bo
 def rolling (replicas updated : Int) (skippedObs : Bool) : Bool :=
   replicas == updated || skippedObs
 
+/-- over a history of calls of one manager: while a rolling update is in progress the StatefulSet is
+    not coordinated, and a settled StatefulSet with every replica ready is -/
+def rollingHistory (calls : List (Int × K8s.StsStatus)) (answers : List Bool) : Bool :=
+  calls.length == answers.length &&
+  (calls.zip answers).all fun (c, coordinated) =>
+    (c.2.replicas == c.2.updated || !coordinated) &&
+    (!(c.2.replicas == c.2.updated && c.2.ready == c.2.replicas) || coordinated)
+
 end Kvass.Spec.C18
